@@ -68,7 +68,33 @@ func k03wType(t types.Type) (string, bool) {
 	if k03wIsBoolSlice(t) {
 		return "List Int", true
 	}
+	if t.String() == "error" || isErrorType(t) { // `var e error`: an error value is a Bool (nil = false)
+		return "Bool", true
+	}
 	return "", false
+}
+
+// k03wParamNames: string parameters are values: rebinding one (`contents, e = convert(contents)`) is not visible to the
+// caller, so they are ordinary locals of the translation (never "parameters whose elements the body writes")
+func k03wParamNames(fc *fnCtx, fd *ast.FuncDecl, names []string) []string {
+	if !k03wOn() {
+		return names
+	}
+	strParam := map[string]bool{}
+	for _, fl := range fd.Type.Params.List {
+		if k03wIsString(fc.p.TypesInfo.TypeOf(fl.Type)) {
+			for _, n := range fl.Names {
+				strParam[n.Name] = true
+			}
+		}
+	}
+	var out []string
+	for _, n := range names {
+		if !strParam[n] {
+			out = append(out, n)
+		}
+	}
+	return out
 }
 
 // k03wSkipParam: an untranslatable parameter (map / interface) the body never mentions
@@ -237,6 +263,32 @@ func (fc *fnCtx) k03wMexpr(ex ast.Expr) (string, bool, error) {
 		return "", false, nil
 	}
 	switch x := ex.(type) {
+	case *ast.Ident:
+		// a package-level integer variable initialised with `TABLE[<constant>]` and never assigned: its value
+		if obj, ok := fc.p.TypesInfo.Uses[x].(*types.Var); ok && obj.Pkg() != nil && obj.Parent() == obj.Pkg().Scope() {
+			if _, isLocal := fc.locals[x.Name]; isLocal {
+				return "", false, nil
+			}
+			if lt, err := leanType(obj.Type()); err == nil && lt == "Int" && !assignedAnywhere(fc.p, obj) {
+				if op := pkgs[obj.Pkg().Path()]; op != nil {
+					if init, ip := findVarInit(op, obj.Name()); init != nil {
+						if ie, ok := init.(*ast.IndexExpr); ok {
+							if tid, ok := ie.X.(*ast.Ident); ok {
+								if tobj, ok := ip.TypesInfo.Uses[tid].(*types.Var); ok && !assignedAnywhere(ip, tobj) {
+									if vals, ok := fc.constList(ip, tid, 0); ok {
+										if iv, ok := ip.TypesInfo.Types[ie.Index]; ok && iv.Value != nil {
+											if k, exact := constant.Int64Val(iv.Value); exact && k >= 0 && int(k) < len(vals) {
+												return fmt.Sprintf("%d", vals[k]), true, nil
+											}
+										}
+									}
+								}
+							}
+						}
+					}
+				}
+			}
+		}
 	case *ast.IndexExpr:
 		if k03wIsBoolSlice(fc.p.TypesInfo.TypeOf(x.X)) {
 			base, err := fc.lexpr(x.X)
@@ -307,16 +359,24 @@ func (fc *fnCtx) k03wLexpr(ex ast.Expr) (string, bool, error) {
 			if _, isBuiltin := fc.p.TypesInfo.Uses[id].(*types.Builtin); isBuiltin {
 				switch id.Name {
 				case "make":
-					// make([]T, 0, <constant>): the empty slice (capacity is never observed by the translation)
+					// make([]T, 0, n): the empty slice (capacity is never observed by the translation); panics when n < 0
 					if len(x.Args) == 3 {
 						if lt, err := leanTypeM(fc.p.TypesInfo.TypeOf(x)); err == nil && lt == "List Int" {
 							l := fc.p.TypesInfo.Types[x.Args[1]]
 							c := fc.p.TypesInfo.Types[x.Args[2]]
-							if l.Value != nil && l.Value.String() == "0" && c.Value != nil && constant.Sign(c.Value) >= 0 {
+							if l.Value != nil && l.Value.String() == "0" {
+								if c.Value != nil && constant.Sign(c.Value) >= 0 {
+									return "[]", true, nil
+								}
+								n, err := fc.expr(x.Args[2])
+								if err != nil {
+									return "", true, err
+								}
+								fc.bind("Gzx.GoM.mk " + n)
 								return "[]", true, nil
 							}
 						}
-						return "", true, fmt.Errorf("make with a capacity: only make([]T, 0, <constant>)")
+						return "", true, fmt.Errorf("make with a capacity: only make([]T, 0, n)")
 					}
 				case "append":
 					if lt, err := leanTypeM(fc.p.TypesInfo.TypeOf(x)); err != nil || lt != "List Int" || len(x.Args) < 1 {
